@@ -34,6 +34,7 @@ import (
 	"github.com/pkg/errors"
 	tally "github.com/uber-go/tally/v4"
 	"github.com/uber-go/tally/v4/internal/cache"
+	"github.com/uber-go/tally/v4/internal/verifhook"
 	customtransport "github.com/uber-go/tally/v4/m3/customtransports"
 	m3thrift "github.com/uber-go/tally/v4/m3/thrift/v2"
 	"github.com/uber-go/tally/v4/m3/thriftudp"
@@ -134,6 +135,8 @@ type reporter struct {
 	numWriteErrors        atomic.Int64
 	numWriteErrorsCounter tally.CachedCount
 	numTagCacheCounter    tally.CachedCount
+
+	verif verifState
 }
 
 // Options is a set of options for the M3 reporter.
@@ -511,10 +514,12 @@ func (r *reporter) reportCopyMetric(
 ) {
 	r.pending.Inc()
 	defer r.pending.Dec()
+	verifhook.Point(verifhook.M3Entered)
 
 	if r.done.Load() {
 		return
 	}
+	verifhook.Point(verifhook.M3Checked)
 
 	m.Timestamp = r.now.Load()
 
@@ -536,10 +541,12 @@ func (r *reporter) reportCopyMetric(
 func (r *reporter) Flush() {
 	r.pending.Inc()
 	defer r.pending.Dec()
+	verifhook.Point(verifhook.M3Entered)
 
 	if r.done.Load() {
 		return
 	}
+	verifhook.Point(verifhook.M3Checked)
 
 	r.reportInternalMetrics()
 	r.metCh <- sizedMetric{}
@@ -550,13 +557,16 @@ func (r *reporter) Close() (err error) {
 	if !r.done.CAS(false, true) {
 		return errAlreadyClosed
 	}
+	verifhook.Point(verifhook.M3CloseCAS)
 
 	// Wait for any pending reports to complete.
 	for r.pending.Load() > 0 {
 		runtime.Gosched()
 	}
+	verifhook.Point(verifhook.M3CloseDrained)
 
 	close(r.donech)
+	verifhook.Point(verifhook.M3CloseDonech)
 	close(r.metCh)
 	r.wg.Wait()
 
@@ -627,6 +637,7 @@ func (r *reporter) process() {
 
 		mets = append(mets, m)
 		bytes += smet.size
+		r.verifCharge(smet.size)
 	}
 
 	// Final flush
@@ -639,6 +650,7 @@ func (r *reporter) flush(mets []m3thrift.Metric) []m3thrift.Metric {
 	}
 
 	r.numBatches.Inc()
+	r.verifEmit(mets)
 
 	err := r.client.EmitMetricBatchV2(m3thrift.MetricBatch{
 		Metrics:    mets,
